@@ -161,6 +161,21 @@ def parseOp (j : Json) : Except String Op := do
       | _, some t, _ => let (p, n) ← parseTaskId t; return .stopTask p n
       | _, _, some m => return .stop m
       | _, _, _ => .error "bad stop command"
+    | "remove_tasks" =>
+      -- one instance, no --flow; hint 'ch' = [[id, [child ids in the order walked]]]
+      match ← ids with
+      | [(p, n)] =>
+        let chJ := (jArrField? j "ch").getD []
+        let order : List (Int × String) := chJ.flatMap fun e =>
+          match jArr? e with
+          | some [_, cs] => ((jArr? cs).getD []).filterMap fun c => (jStr? c).bind fun t => (parseTaskId t).toOption
+          | _ => []
+        return .rm p n order
+      | _ => .error "remove_tasks: exactly one task id expected"
+    | "set_prereqs_and_outputs" =>
+      match ← ids, ((jArrField? args "outputs").getD []).filterMap jStr? with
+      | [(p, n)], [trig] => return .setOut p n trig
+      | _, _ => .error "set_prereqs_and_outputs: one task id and one output expected"
     | other => .error s!"unknown command {other}"
   | some "restart" => return .restart
   | some "reload" =>
